@@ -2,7 +2,7 @@
 import ast
 import re
 
-from ..core import Ob, Rule, AnalysisError, norm, KeyMaker
+from ..core import require_idiom, Ob, Rule, AnalysisError, norm, KeyMaker
 from ..cfg import path_of
 from .. import astutil as A
 
@@ -214,6 +214,7 @@ def r3_every_segment(ctx):
     # the error cursor is drained before gen_seg: a `while True` with next(err_iter) ... break on IterOutOfBounds
     txt = ast.unparse(fn)
     ok = 'next(err_iter)' in txt and 'err_node_list.append(err_node)' in txt and 'IterOutOfBounds' in txt
+    require_idiom(ok, 'c19.py:216')
     yield Ob('x12n_document:x12n_document error cursor drained into err_node_list', ok, ctx.floc(fn), '' if ok else 'cursor loop changed')
 
 
